@@ -5,3 +5,10 @@ pub open spec fn gen_matches(expected: Option<&Arc<Record>>, cached: Option<Weak
         None => true,
     }
 }
+
+// the summed sizes of a bucket's entries (what the gauge holds for them)
+pub open spec fn total_size(s: Seq<CacheEntry>) -> int
+    decreases s.len(),
+{
+    if s.len() == 0 { 0 } else { total_size(s.drop_last()) + s.last().size as int }
+}
